@@ -292,7 +292,7 @@ func checkC16(c *Check) {
 	var all []*ssa.Function
 	seenFn := map[*ssa.Function]bool{}
 	for _, r := range rootFns {
-		for _, f := range P.reachableOwn(r) {
+		for _, f := range P.reachableOwnThread(r) {
 			if rootsOf[f] == nil {
 				rootsOf[f] = map[*ssa.Function]bool{}
 			}
@@ -675,7 +675,12 @@ func confinedToOneGoroutine(P *Program, accs []access, rootsOf map[*ssa.Function
 			}
 		}
 		if len(goRoots) != 1 {
-			return false, fmt.Sprintf("access in %s is reachable from %d concurrency roots", fnKey(a.fn), len(goRoots))
+			var names []string
+			for _, r := range goRoots {
+				names = append(names, fnKey(r))
+			}
+			sort.Strings(names)
+			return false, fmt.Sprintf("access in %s is reachable from %d concurrency roots %v", fnKey(a.fn), len(goRoots), names)
 		}
 		if root == nil {
 			root = goRoots[0]
@@ -685,6 +690,43 @@ func confinedToOneGoroutine(P *Program, accs []access, rootsOf map[*ssa.Function
 	}
 	if root != nil && root.Parent() == nil && (root.Name() == "Serve" || root.Name() == "ServeContext") && len(P.CallersOf(root)) == 0 {
 		return true, "all accesses are in " + fnKey(root) + ", a run.Group service method invoked once per unit"
+	}
+	if root != nil && root.Parent() == nil && root.Signature.Recv() != nil {
+		// a method started as a goroutine on its receiver: go w.run()
+		var sites []*ssa.Go
+		for _, fn := range P.Funcs {
+			for _, b := range fn.Blocks {
+				for _, ins := range b.Instrs {
+					if g, ok := ins.(*ssa.Go); ok && g.Common().StaticCallee() == root {
+						sites = append(sites, g)
+					}
+				}
+			}
+		}
+		if len(sites) == 0 || len(P.CallersOf(root)) != len(sites) {
+			return false, "the accessing method " + fnKey(root) + " is not (only) started as a goroutine"
+		}
+		for _, g := range sites {
+			recv := g.Common().Args[0]
+			if isFresh(P, recv, 2) {
+				continue
+			}
+			starter := g.Parent()
+			if len(starter.Params) == 0 || recv != ssa.Value(starter.Params[0]) || inLoop(g.Block()) {
+				return false, "the goroutine " + fnKey(root) + " is started on an object that is neither fresh nor the starter's receiver"
+			}
+			callers := P.CallersOf(starter)
+			if len(callers) == 0 {
+				return false, "the goroutine-starting method " + fnKey(starter) + " has no resolved caller"
+			}
+			for _, site := range callers {
+				args := site.Common().Args
+				if len(args) == 0 || !isFresh(P, args[0], 2) {
+					return false, "the goroutine-starting method " + fnKey(starter) + " is invoked on an object that is not freshly allocated (several goroutines per object possible)"
+				}
+			}
+		}
+		return true, "all accesses are in the goroutine " + fnKey(root) + ", started once per freshly allocated object"
 	}
 	if root == nil || root.Parent() == nil || !isGoClosure(root) {
 		return false, "the accessing code is not a goroutine closure"
@@ -717,3 +759,13 @@ func isGoClosure(fn *ssa.Function) bool {
 
 // reachesOnlyThrough is a coarse helper: fn is the root itself.
 func (P *Program) reachesOnlyThrough(fn, root *ssa.Function) bool { return fn == root }
+
+// inLoop: the block lies on a cycle of its function's CFG.
+func inLoop(b *ssa.BasicBlock) bool {
+	for _, s := range b.Succs {
+		if blockReaches(s, b) {
+			return true
+		}
+	}
+	return false
+}
